@@ -176,5 +176,6 @@ pub fn parse_result(input_len: usize, r: &ParseRes, with_rest: bool) -> J {
 pub fn filter_config(c: &DltFilterConfig) -> J {
     let ids = |o: &Option<Vec<String>>| opt(o, |v| J::Array(v.iter().map(|s| str_bytes(s)).collect()));
     json!({"min": opt(&c.min_log_level, |n| json!(*n)), "app": ids(&c.app_ids), "ctx": ids(&c.context_ids), "ecu": ids(&c.ecu_ids),
-           "appc": c.app_id_count, "ctxc": c.context_id_count})
+           // TLC integers are 32 bit: the counts are clipped to +-2^30 (every comparison with a set size keeps its outcome)
+           "appc": c.app_id_count.clamp(-(1 << 30), 1 << 30), "ctxc": c.context_id_count.clamp(-(1 << 30), 1 << 30)})
 }
